@@ -277,7 +277,12 @@ def pairs_for(ctx, img, rng, budget, spent, wrap=False):
         trace = (not wrap) and n <= 4096 and len(sizes) <= 1500
         if wrap:
             allowed, expected = wrapper_args(img, rng)
-            out.append(G.Pair(img, sizes, tag, kind='wrap', allowed=allowed, expected=expected))
+            pr = G.Pair(img, sizes, tag, kind='wrap', allowed=allowed, expected=expected)
+            if 2 <= len(sizes) <= 400 and rng.random() < 0.5:
+                # another consumption protocol / call form of the same reads (iteration with break + resume,
+                # next(iter(w)), iter() twice, read(size=), read(-1), close() twice, deepcopy of the half-used wrapper ...)
+                pr.drive, pr.k, pr.form = rng.choice(G.WRAPPER_DRIVES), rng.randrange(1, len(sizes)), rng.randrange(64)
+            out.append(pr)
         else:
             feed, ctor = G.pick_presentation(img.fmt, rng)
             out.append(G.Pair(img, sizes, tag, trace=trace, poke=rng.random() < 0.5, feed=feed, ctor=ctor))
@@ -433,6 +438,25 @@ def stream_oracle(ctx, img, family, rng, fails, budget_pokes=2, poke_p=0.2, pres
                 f.case.update(feed=feed, ctor=ctor)
                 fails.append(f)
                 return
+    # call forms of the constructor / eat_chunk, and a deep copy of the half-fed inspector used alongside it
+    for k, (tag, sizes) in enumerate(family):
+        if k not in plain or not 2 <= len(sizes) <= 600 or not (tag in ('fixed512', 'seed') or rng.random() < 0.08):
+            continue
+        ctx.evaluations += 1
+        ctx.count('search/clone-and-call-forms')
+        how, at, form, kw = rng.choice((None,) + G.INSPECTOR_CLONES), rng.randrange(1, len(sizes)), rng.randrange(8), rng.random() < 0.5
+        try:
+            got = G.run_with_clone(fmt, data, sizes, how, at, form, kw)
+            c = G.core(got.split('\t')[-1]) if not got.startswith('COPIES') else got
+        except Exception as e:
+            c = 'CRASH:%s:%s' % (type(e).__name__, e)
+        if c != plain[k]:
+            f = make_failure(img, sizes, sizes, 'verdict-depends-on-call-form-or-copy',
+                             'chunks %s: %s() + eat_chunk(chunk): %s | constructor call form %d, eat_chunk(%s), %s after chunk %d: %s'
+                             % (G.pack_sizes(sizes)[:8], fmt, plain[k], form, 'chunk=...' if kw else '...', how or 'no copy', at, c[:400]))
+            f.case.update(clone=how, clone_at=at, form=form, eat_kw=kw)
+            fails.append(f)
+            return
     # another object of the same class alive at the same time, fed a different stream (before / interleaved /
     # after): nothing it is shown may change what this one reports
     pool = ctx.__dict__.setdefault('_c01_pool', {}).setdefault(fmt, [])
@@ -503,6 +527,32 @@ def wrapper_oracle(ctx, img, family, fails, allowed=None, expected=None, compani
                 f.case.update(allowed=allowed, expected=expected)
             fails.append(f)
             return
+    # the same reads through every consumption protocol and call form of the wrapper
+    full = getattr(ctx, '_c01_full', False)
+    for tag, sizes in [f for f in family if 2 <= len(f[1]) <= 300][:6 if full else 3]:
+        drives = list(G.WRAPPER_DRIVES) if full else ['break-resume'] + ctx.rng.sample(G.WRAPPER_DRIVES, 3)
+        for drive in drives:
+            ks = range(1, len(sizes)) if len(sizes) <= 8 else sorted(ctx.rng.sample(range(1, len(sizes)), 3))
+            if drive not in ('break-resume', 'mixed', 'read-rest', 'deepcopy'):
+                ks = [1]
+            for k in ks:
+                ctx.evaluations += 1
+                ctx.count('search/wrapper-protocol/' + drive)
+                form = ctx.rng.randrange(64)
+                want = run(G.drive_sizes(sizes, drive, k))
+                try:
+                    got = wrap_core('\t' + G.drive_wrapper(data, sizes, drive, allowed, expected, k, form))
+                except Exception as e:
+                    got = 'CRASH:%s:%s' % (type(e).__name__, e)
+                if got != want:
+                    f = make_failure(img, G.drive_sizes(sizes, drive, k), sizes, 'wrapper-verdict-depends-on-the-consumption-protocol',
+                                     'InspectWrapper(allowed_formats=%s, expected_format=%s) over chunks %s: read()+close(): %s | protocol "%s" '
+                                     '(interrupted after chunk %d, constructor call form %d): %s'
+                                     % (allowed, expected, G.pack_sizes(sizes)[:8], ' '.join(want.split('\t')[:2]), drive, k, form,
+                                        ' '.join(got.split('\t')[:2])), ckind='wrap')
+                    f.case.update(allowed=allowed, expected=expected, drive=drive, k=k, form=form)
+                    fails.append(f)
+                    return
     # a second InspectWrapper alive at the same time, reading other data
     pool = ctx.__dict__.setdefault('_c01_wpool', [])
     other = companion[0] if companion else (ctx.rng.choice(pool[-4:]) if pool else bytes(700))
@@ -608,6 +658,7 @@ def img_of_case(c):
 def search(ctx, seeds, full=False):
     rng = ctx.rng
     fails = []
+    ctx._c01_full = full
     # 1. the disagreeing cases first
     region_seeds = [s for s in seeds if s.get('kind') == 'region'][:200]
     def enough():
@@ -673,7 +724,7 @@ def candidate_class(failure, listed_ids):
         return None
     data = G.decode_content(case['content'])
     kind = det.get('kind')
-    if case.get('companion') or case.get('feed') or case.get('ctor'):
+    if case.get('companion') or case.get('feed') or case.get('ctor') or case.get('drive') or 'clone' in case:
         return None
     if case['kind'] == 'wrap':
         al, ex = case.get('allowed'), case.get('expected')
@@ -800,6 +851,7 @@ def replay(ctx, payload):
                    feed=case.get('feed', 'bytes'), ctor=case.get('ctor'), allowed=case.get('allowed'), expected=case.get('expected'),
                    poke=bool(case.get('poke')))
         p.companion = G.companion_of_case(case)
+        p.drive, p.k, p.form = case.get('drive'), case.get('k', 1), case.get('form', 0)
         if p.companion:
             print('a second %s alive at the same time, fed %d other bytes %s' % ('InspectWrapper' if kind == 'wrap' else case['fmt'] + ' inspector', len(p.companion[0]), p.companion[2]))
         import random
@@ -815,6 +867,27 @@ def replay(ctx, payload):
         print('implementation:', impl[-3000:])
         print('model         :', model[-3000:])
         return 1 if impl != model else 0
+    if case.get('drive') and 'sizes_b' in case:
+        sizes = G.unpack_sizes(case['sizes_b'])
+        al, ex, drive, k, form = case.get('allowed'), case.get('expected'), case['drive'], case.get('k', 1), case.get('form', 0)
+        plain = wrap_core(G.run_wrap_x(al, ex, data, G.drive_sizes(sizes, drive, k)))
+        got = wrap_core('\t' + G.drive_wrapper(data, sizes, drive, al, ex, k, form))
+        model = wrap_core(G.model_replies(ctx, case['fmt'], case['content'], [G.drive_sizes(sizes, drive, k)], 'wrap', al, ex)[0])
+        print('InspectWrapper(allowed_formats=%s, expected_format=%s), %d bytes, chunks %s' % (al, ex, len(data), case['sizes_b'][:12]))
+        print('  implementation, read() + close()        :', plain[:1500])
+        print('  implementation, protocol "%s" (k=%d, form %d):' % (drive, k, form), got[:1500])
+        print('  model (Wrap.pipe)                       :', model[:1500])
+        print('property oracle on the implementation: %s' % ('DIFFERS' if got != plain else 'equal'))
+        return 1 if got != plain else 0
+    if 'clone' in case and 'sizes_b' in case:
+        sizes = G.unpack_sizes(case['sizes_b'])
+        got = G.run_with_clone(case['fmt'], data, sizes, case['clone'], case['clone_at'], case['form'], case['eat_kw'])
+        plain = G.run_insp_x(case['fmt'], data, sizes)
+        print('%s, %d bytes, chunks %s' % (case['fmt'], len(data), case['sizes_b'][:12]))
+        print('  implementation, plain call forms:', plain[-1000:])
+        print('  implementation, constructor form %d, eat_chunk by %s, %s after chunk %d:' % (case['form'], 'keyword' if case['eat_kw'] else 'position', case['clone'] or 'no copy', case['clone_at']), got[-1000:])
+        print('  model:', ctx.driver.ask(G.insp_line(case['fmt'], case['content'], sizes, False))[-1000:])
+        return 1 if got != plain else 0
     if case.get('companion') and 'sizes_b' in case:
         comp = G.companion_of_case(case)
         sizes = G.unpack_sizes(case['sizes_b'])
